@@ -15,6 +15,12 @@ const (
 	exclMapKey      = "K07b-map-key-variance"
 	exclStructWidth = "K07c-struct-width"
 	exclTaggedTag   = "C12N1-tagged-union-name-tag" // register entry K38-remainder (shared with C12)
+	exclMeet        = "K51-meet-underapproximates"
+	// :match_field on a scrutinee typed fn:Union(/any, fn:Struct(...)) takes the field type from the struct
+	// alternative alone (symbols.StructTypeField skips /any). Repair proposed in
+	// notes/proposed/C11-match-field-any-alternative.diff; the exclusion exists for the case that the
+	// finding is registered as known instead.
+	exclFieldOfAny = "C11N7-match-field-any-alternative"
 )
 
 type tvar struct {
@@ -24,6 +30,13 @@ type tvar struct {
 	// :match_pair / :match_cons are typed by a fresh type variable, let-bound fn:struct / fn:map
 	// values by /any); a head that projects it is mostly declared /any.
 	opaque bool
+	// groups: the types the variable can have in one inference state of the checker (one per bound row
+	// of the predicate that bound it); nil = not known, see stateCandidates.
+	groups []Ty
+	// locked (only consulted while the exclusion K51 is active): the checker's type of the variable is
+	// not known to the harness (type variable, column of an undeclared or recursive predicate, result of
+	// a meet), so it is used only where no meet is computed: head, negated atoms, !=.
+	locked bool
 }
 
 type pinfo struct {
@@ -32,6 +45,8 @@ type pinfo struct {
 	cols     []Ty // type flowing through each column (join over the declared rows / the rules)
 	level    int  // -1 extensional, else index of the intensional predicate
 	declared bool
+	rows     [][]Ty // the relation type alternatives the checker works with (nil: not known)
+	noJoin   bool   // undeclared intensional or recursive predicate: its relation type is not known here
 }
 
 type progGen struct {
@@ -41,9 +56,13 @@ type progGen struct {
 	preds  []pinfo
 	p      prog.Program
 	extra  []prog.Atom
+	k51    bool // exclusion K51-meet-underapproximates active
 }
 
 func (g *progGen) label(l string) { g.labels[l] = true }
+
+// touch records that the K51 exclusion removed a choice the unconstrained generator could have made.
+func (g *progGen) touch() { g.labels["k51-touched"] = true }
 
 func (g *progGen) intn(label string, n int) int { return rapid.IntRange(0, n-1).Draw(g.t, label) }
 
@@ -206,7 +225,7 @@ func chance(t *rapid.T, label string, p int) bool { return pct(t, label) >= 100-
 
 // genProgram draws a whole case.
 func genProgram(t *rapid.T) (prog.Generated, []string) {
-	g := &progGen{t: t, labels: map[string]bool{}}
+	g := &progGen{t: t, labels: map[string]bool{}, k51: stats.Exclusion(exclMeet)}
 	s := &shape{fixKey: stats.Exclusion(exclMapKey), fixLabels: stats.Exclusion(exclStructWidth)}
 	s.mapKey = genKeyTy(t)
 	nl := rapid.IntRange(1, 2).Draw(t, "nlabels")
@@ -226,8 +245,13 @@ func genProgram(t *rapid.T) (prog.Generated, []string) {
 	}
 	// intensional predicates, in levels
 	ni := rapid.IntRange(1, 3).Draw(t, "nidb")
+	level := 0
+	if chance(t, "chain", 5) {
+		g.genChain(fmt.Sprintf("e%d", ne), level)
+		level += 2
+	}
 	for i := 0; i < ni; i++ {
-		g.genIDB(i)
+		g.genIDB(level + i)
 	}
 	// occasionally one text fact of a DECLARED predicate is replaced by a constant of a foreign kind: bounds
 	// checking must reject the program (for an undeclared predicate the fact would merely widen the
@@ -275,6 +299,7 @@ func (g *progGen) genEDB(name string) {
 			rows = append(rows, row)
 		}
 		info.cols = joinCols(rows)
+		info.rows = rows
 		for _, row := range rows {
 			n := rapid.IntRange(1, 2).Draw(t, "nfacts")
 			for i := 0; i < n; i++ {
@@ -308,6 +333,7 @@ func (g *progGen) genEDB(name string) {
 		g.label("edb-two-rows")
 	}
 	info.cols = joinCols(rows)
+	info.rows = rows
 	g.p.Decls = append(g.p.Decls, declOf(name, arity, rows))
 	n := rapid.IntRange(1, 4).Draw(t, "nfacts")
 	for i := 0; i < n; i++ {
@@ -328,6 +354,74 @@ func (g *progGen) genEDB(name string) {
 	g.preds = append(g.preds, info)
 }
 
+// genChain adds an undeclared predicate with a unit clause and a recursive rule whose argument types
+// appear round by round, and a declared consumer:
+//
+//	Decl eK(A, B) bound [T0, T1] bound [T1, T2].   eK(m0, m1). eK(m1, m2).
+//	iL(m0).   iL(Y) :- iL(X), eK(X, Y).            (no declaration: the relation type is inferred)
+//	Decl iL+1(A) bound ... .   iL+1(V) :- iL(V).
+//
+// The consumer is declared either with all three types or (one step too narrow, must be rejected) with the
+// types of the first round only.
+func (g *progGen) genChain(edb string, level int) {
+	t := g.t
+	pool := []Ty{tyNumber, tyString, tyName, tyFloat}
+	i0 := g.intn("t0", 4)
+	pool[0], pool[i0] = pool[i0], pool[0]
+	i1 := 1 + g.intn("t1", 3)
+	pool[1], pool[i1] = pool[i1], pool[1]
+	i2 := 2 + g.intn("t2", 2)
+	pool[2], pool[i2] = pool[i2], pool[2]
+	t0, t1, t2 := pool[0], pool[1], pool[2]
+	m0, m1, m2 := genMember(t, t0), genMember(t, t1), genMember(t, t2)
+	rows := [][]Ty{{t0, t1}, {t1, t2}}
+	g.p.Decls = append(g.p.Decls, declOf(edb, 2, rows))
+	facts := []prog.Atom{
+		{Pred: edb, Args: []prog.Term{constTerm(m0), constTerm(m1)}},
+		{Pred: edb, Args: []prog.Term{constTerm(m1), constTerm(m2)}},
+	}
+	if rapid.Bool().Draw(t, "in-text") {
+		g.p.Facts = append(g.p.Facts, facts...)
+	} else {
+		g.extra = append(g.extra, facts...)
+	}
+	g.preds = append(g.preds, pinfo{name: edb, arity: 2, cols: joinCols(rows), level: -1, declared: true, rows: rows})
+	rec := fmt.Sprintf("i%d", level)
+	g.p.Facts = append(g.p.Facts, prog.Atom{Pred: rec, Args: []prog.Term{constTerm(m0)}})
+	g.p.Rules = append(g.p.Rules, prog.Rule{
+		Head: prog.Atom{Pred: rec, Args: []prog.Term{prog.Var("Y")}},
+		Body: []prog.Lit{
+			prog.PosLit(prog.Atom{Pred: rec, Args: []prog.Term{prog.Var("X")}}),
+			prog.PosLit(prog.Atom{Pred: edb, Args: []prog.Term{prog.Var("X"), prog.Var("Y")}}),
+		},
+	})
+	alts := []Ty{t0, t1, t2}
+	if rapid.Bool().Draw(t, "first-round-only") {
+		alts = alts[:2]
+		g.label("chain-first-round-types-only")
+	} else {
+		g.label("chain-all-types")
+	}
+	g.preds = append(g.preds, pinfo{name: rec, arity: 1, cols: []Ty{tyUnion(alts...)}, level: level, noJoin: true})
+	g.label("recursive-undeclared-with-unit-clause")
+	// the declared consumer
+	cons := fmt.Sprintf("i%d", level+1)
+	var declRows [][]Ty
+	if rapid.Bool().Draw(t, "row-per-type") {
+		for _, a := range alts {
+			declRows = append(declRows, []Ty{a})
+		}
+	} else {
+		declRows = [][]Ty{{Ty{K: "union", Args: alts, Dot: rapid.Bool().Draw(t, "dot")}}}
+	}
+	g.p.Decls = append(g.p.Decls, declOf(cons, 1, declRows))
+	g.p.Rules = append(g.p.Rules, prog.Rule{
+		Head: prog.Atom{Pred: cons, Args: []prog.Term{prog.Var("V")}},
+		Body: []prog.Lit{prog.PosLit(prog.Atom{Pred: rec, Args: []prog.Term{prog.Var("V")}})},
+	})
+	g.preds = append(g.preds, pinfo{name: cons, arity: 1, cols: joinCols(declRows), level: level + 1, declared: true, rows: declRows})
+}
+
 func (g *progGen) memberFact(name string, row []Ty) prog.Atom {
 	a := prog.Atom{Pred: name}
 	for _, ty := range row {
@@ -345,7 +439,7 @@ func (g *progGen) genIDB(level int) {
 	for r := 0; r < nrules; r++ {
 		rg := &ruleGen{g: g, level: level}
 		if r > 0 && chance(t, "recursive", 25) {
-			rg.self = &pinfo{name: name, arity: arity, cols: joinCols(rows), level: level}
+			rg.self = &pinfo{name: name, arity: arity, cols: joinCols(rows), level: level, noJoin: true}
 			g.label("recursive-rule")
 		}
 		rule, types := rg.gen(name, arity)
@@ -366,6 +460,7 @@ func (g *progGen) genIDB(level int) {
 	if chance(t, "idb-undeclared", 12) {
 		g.label("idb-undeclared")
 		info.cols = joinCols(distinct)
+		info.noJoin = true
 		g.preds = append(g.preds, info)
 		return
 	}
@@ -405,6 +500,7 @@ func (g *progGen) genIDB(level int) {
 		}
 	}
 	info.cols = joinCols(declRows)
+	info.rows = declRows
 	g.p.Decls = append(g.p.Decls, declOf(name, arity, declRows))
 	// occasionally a base fact of the intensional predicate in the text
 	if chance(t, "idb-fact", 10) {
@@ -483,6 +579,7 @@ func (r *ruleGen) markOpaque(terms ...prog.Term) {
 		for i := range r.env {
 			if t.IsVar() && r.env[i].name == t.Var {
 				r.env[i].opaque = true
+				r.env[i].locked = true
 			}
 		}
 	}
@@ -494,6 +591,107 @@ func (r *ruleGen) setTy(name string, ty Ty) {
 			r.env[i].ty = ty
 		}
 	}
+}
+
+func (r *ruleGen) lock(name string) {
+	for i := range r.env {
+		if r.env[i].name == name {
+			r.env[i].locked = true
+		}
+	}
+}
+
+// live: the variables that may be used where the checker computes a meet or types a function
+// application (all of them unless the exclusion K51 is active).
+func (r *ruleGen) live() []tvar {
+	if !r.g.k51 {
+		return r.env
+	}
+	var res []tvar
+	for _, v := range r.env {
+		if v.locked {
+			r.g.touch()
+		} else {
+			res = append(res, v)
+		}
+	}
+	return res
+}
+
+// unionWithAny: some state type of the variable is a union that has /any among its members.
+func unionWithAny(v tvar) bool {
+	for _, g := range append(cands(v), v.ty) {
+		if g.K == "union" {
+			for _, a := range g.Args {
+				if a.K == "any" {
+					return true
+				}
+			}
+		}
+	}
+	return false
+}
+
+func cands(v tvar) []Ty {
+	if v.groups != nil {
+		return v.groups
+	}
+	return stateCandidates(v.ty)
+}
+
+func colCands(p pinfo, i int) []Ty {
+	if p.rows == nil {
+		return stateCandidates(p.cols[i])
+	}
+	var res []Ty
+	for _, row := range p.rows {
+		res = append(res, row[i])
+	}
+	return res
+}
+
+// joinSafe (K51): the variable may be re-used at column i of p if every type it can have in a state and
+// every alternative of the column are equal, comparable or certainly disjoint.
+func (r *ruleGen) joinSafe(v tvar, p pinfo, i int) (ok, identical bool) {
+	if v.locked || p.noJoin {
+		return false, false
+	}
+	identical = true
+	for _, g := range cands(v) {
+		for _, h := range colCands(p, i) {
+			if !meetSafe(g, h) {
+				return false, false
+			}
+			identical = identical && g.key() == h.key()
+		}
+	}
+	return true, identical
+}
+
+// destructurable (K51): no state type of the scrutinee is a union that contains a member of the
+// destructured kind (the checker then finds no feasible alternative although the premise can succeed);
+// for pairs and lists no singleton inside either (a singleton never conforms to the type variable of the
+// polymorphic relation type).
+func (r *ruleGen) destructurable(v tvar, kind string) bool {
+	if !r.g.k51 {
+		return true
+	}
+	if v.locked {
+		return false
+	}
+	for _, g := range cands(v) {
+		if g.K == "union" || g.K == "tagged" {
+			for _, a := range alternatives(g) {
+				if a.K == kind {
+					return false
+				}
+			}
+		}
+		if g.K == kind && kind != "map" && g.contains("singleton") {
+			return false
+		}
+	}
+	return true
 }
 
 // component gives, for a variable of type ty, the type seen by a destructuring of the wanted kind: the
@@ -563,10 +761,32 @@ func component(ty Ty, kind string) (Ty, bool) {
 
 func (r *ruleGen) varsWith(kind string) []tvar {
 	var res []tvar
-	for _, v := range r.env {
+	for _, v := range r.live() {
 		if _, ok := component(v.ty, kind); ok {
 			// a scrutinee of type /any is offered, but rarely chosen (see pickVar)
+			if !r.destructurable(v, kind) {
+				r.g.touch()
+				continue
+			}
 			res = append(res, v)
+		}
+	}
+	return res
+}
+
+// plainVars: variables whose type is exactly of the given kind (no union, not /any): the only operands
+// of typed functions (fn:list:*, fn:map:get, fn:struct:get) while K51 is active – for any other operand
+// type the application cannot be typed and the checker drops the alternative.
+func (r *ruleGen) plainVars(kind string) []tvar {
+	if !r.g.k51 {
+		return r.varsWith(kind)
+	}
+	var res []tvar
+	for _, v := range r.live() {
+		if v.ty.K == kind {
+			res = append(res, v)
+		} else if _, ok := component(v.ty, kind); ok {
+			r.g.touch()
 		}
 	}
 	return res
@@ -574,7 +794,7 @@ func (r *ruleGen) varsWith(kind string) []tvar {
 
 func (r *ruleGen) varsOfKey(key string) []tvar {
 	var res []tvar
-	for _, v := range r.env {
+	for _, v := range r.live() {
 		if v.ty.key() == key {
 			res = append(res, v)
 		}
@@ -605,25 +825,63 @@ func (r *ruleGen) out(ty Ty) prog.Term {
 	return prog.Var(r.fresh(ty))
 }
 
-func (r *ruleGen) atomArgs(cols []Ty) []prog.Term {
+func (r *ruleGen) atomArgs(p pinfo) []prog.Term {
 	t := r.g.t
 	var args []prog.Term
 	var pending []tvar
-	for _, col := range cols {
+	reused := false
+	// reuse: may the bound variable v be joined at column i? While K51 is active only one bound variable
+	// per atom (the checker compares whole tuples, in one direction) and only if the meet is reliable.
+	reuse := func(v tvar, i int) bool {
+		if !r.g.k51 {
+			return true
+		}
+		ok, identical := r.joinSafe(v, p, i)
+		if reused || !ok {
+			r.g.touch()
+			return false
+		}
+		reused = true
+		if !identical {
+			r.lock(v.name) // from now on its type is the result of a meet
+		}
+		return true
+	}
+	for i, col := range p.cols {
 		same := r.varsOfKey(col.key())
-		switch k := pct(t, "arg"); {
-		case k < 30 && len(same) > 0:
-			args = append(args, prog.Var(same[r.g.intn("reuse", len(same))].name))
-			r.g.label("join")
-		case k >= 30 && k < 32 && len(r.env) > 0:
-			// join across different declared types: the checker must intersect them
-			args = append(args, prog.Var(r.env[r.g.intn("reuse-any", len(r.env))].name))
-			r.g.label("join-across-types")
-		case k < 90:
+		fresh := func() {
 			r.nvar++
-			v := tvar{name: fmt.Sprintf("V%d", r.nvar), ty: col}
+			v := tvar{name: fmt.Sprintf("V%d", r.nvar), ty: col, locked: p.noJoin}
+			if p.rows != nil {
+				seen := map[string]bool{}
+				for _, row := range p.rows {
+					if !seen[row[i].key()] {
+						seen[row[i].key()] = true
+						v.groups = append(v.groups, row[i])
+					}
+				}
+			}
 			pending = append(pending, v)
 			args = append(args, prog.Var(v.name))
+		}
+		switch k := pct(t, "arg"); {
+		case k < 30 && len(same) > 0:
+			if v := same[r.g.intn("reuse", len(same))]; reuse(v, i) {
+				args = append(args, prog.Var(v.name))
+				r.g.label("join")
+			} else {
+				fresh()
+			}
+		case k >= 30 && k < 32 && len(r.env) > 0:
+			// join across different declared types: the checker must intersect them
+			if v := r.env[r.g.intn("reuse-any", len(r.env))]; reuse(v, i) {
+				args = append(args, prog.Var(v.name))
+				r.g.label("join-across-types")
+			} else {
+				fresh()
+			}
+		case k < 90:
+			fresh()
 		case k < 96:
 			args = append(args, constTerm(genMember(t, col)))
 			r.g.label("const-in-atom")
@@ -679,16 +937,17 @@ func constTy(v val.V) Ty {
 
 // operand: a bound variable or (sometimes) a constant, with its flowing type.
 func (r *ruleGen) operand() (prog.Term, Ty) {
-	if len(r.env) == 0 || chance(r.g.t, "const-operand", 15) {
+	live := r.live()
+	if len(live) == 0 || chance(r.g.t, "const-operand", 15) {
 		v := genMember(r.g.t, []Ty{tyNumber, tyString, tyName}[r.g.intn("kind", 3)])
 		return constTerm(v), constTy(v)
 	}
-	vs := r.env
+	vs := live
 	if !chance(r.g.t, "any-operand", 15) {
 		// a union-typed operand inside a constructor gives a type the checker cannot relate to a
 		// declaration (no unions below the top level), so plain types are preferred
 		var plain []tvar
-		for _, v := range r.env {
+		for _, v := range live {
 			if v.ty.K != "union" && v.ty.K != "tagged" && v.ty.K != "any" && !v.opaque {
 				plain = append(plain, v)
 			}
@@ -803,9 +1062,9 @@ func (r *ruleGen) construct() (prog.Term, Ty, bool) {
 			return prog.Fn("fn:float:plus", fl, constTerm(val.F(1.5))), tyFloat, true
 		})
 	}
-	for _, v := range r.env {
+	for _, v := range r.live() {
 		v := v
-		if v.ty.K == "name" || v.ty.K == "prefix" || v.ty.K == "singleton" && chance(t, "name-fn-on-singleton", 10) {
+		if v.ty.K == "name" || v.ty.K == "prefix" || v.ty.K == "singleton" && !g.k51 && chance(t, "name-fn-on-singleton", 10) {
 			add("fn:name", func() (prog.Term, Ty, bool) {
 				fn := pick(t, "namefn", "fn:name:root", "fn:name:tip", "fn:name:to_string")
 				if fn == "fn:name:to_string" {
@@ -816,35 +1075,58 @@ func (r *ruleGen) construct() (prog.Term, Ty, bool) {
 			break
 		}
 	}
-	if lists := r.varsWith("list"); len(lists) > 0 {
+	if lists := r.plainVars("list"); len(lists) > 0 {
 		add("list-fn", func() (prog.Term, Ty, bool) {
 			l := r.pickVar("list", lists)
 			lt, _ := component(l.ty, "list")
+			// element for cons / append
+			element := func() (prog.Term, Ty, bool) {
+				et := lt.Args[0]
+				es := r.varsOfKey(et.key())
+				if g.k51 {
+					// the element must have exactly the list's element type, else the application is untypable
+					if et.K == "union" || et.K == "tagged" || et.K == "any" {
+						g.touch()
+						return prog.Term{}, Ty{}, false
+					}
+					if len(es) > 0 {
+						return prog.Var(es[0].name), es[0].ty, true
+					}
+					if et.K == "number" || et.K == "string" || et.K == "float64" {
+						return constTerm(genMember(t, et)), et, true
+					}
+					g.touch()
+					return prog.Term{}, Ty{}, false
+				}
+				e, te := r.operand()
+				if len(es) > 0 && rapid.IntRange(0, 3).Draw(t, "same-elem") > 0 {
+					e, te = prog.Var(es[0].name), es[0].ty
+				} else if chance(t, "list-as-element", 25) {
+					e, te = prog.Var(l.name), l.ty
+				}
+				return e, te, true
+			}
 			switch rapid.IntRange(0, 3).Draw(t, "listfn") {
 			case 0:
 				return prog.Fn("fn:list:len", prog.Var(l.name)), tyNumber, true
 			case 1:
 				return prog.Fn("fn:list:get", prog.Var(l.name), prog.Num(0)), lt.Args[0], true
 			case 2:
-				e, te := r.operand()
-				if es := r.varsOfKey(lt.Args[0].key()); len(es) > 0 && rapid.IntRange(0, 3).Draw(t, "same-elem") > 0 {
-					e, te = prog.Var(es[0].name), es[0].ty
-				} else if chance(t, "list-as-element", 25) {
-					e, te = prog.Var(l.name), l.ty
+				e, te, ok := element()
+				if !ok {
+					return prog.Term{}, Ty{}, false
 				}
 				return prog.Fn("fn:list:cons", e, prog.Var(l.name)), tyList(joinTy(te, lt.Args[0])), true
 			default:
-				e, te := r.operand()
-				if es := r.varsOfKey(lt.Args[0].key()); len(es) > 0 && rapid.IntRange(0, 3).Draw(t, "same-elem") > 0 {
-					e, te = prog.Var(es[0].name), es[0].ty
-				} else if chance(t, "list-as-element", 25) {
-					e, te = prog.Var(l.name), l.ty
+				e, te, ok := element()
+				if !ok {
+					return prog.Term{}, Ty{}, false
 				}
 				return prog.Fn("fn:list:append", prog.Var(l.name), e), tyList(joinTy(te, lt.Args[0])), true
 			}
 		})
 	}
-	if maps := r.varsWith("map"); len(maps) > 0 {
+	if maps := r.plainVars("map"); len(maps) > 0 {
 		add("fn:map:get", func() (prog.Term, Ty, bool) {
 			m := r.pickVar("map", maps)
 			mt, _ := component(m.ty, "map")
@@ -855,7 +1137,7 @@ func (r *ruleGen) construct() (prog.Term, Ty, bool) {
 			return prog.Fn("fn:map:get", prog.Var(m.name), k), mt.Args[1], true
 		})
 	}
-	if structs := r.varsWith("struct"); len(structs) > 0 {
+	if structs := r.plainVars("struct"); len(structs) > 0 {
 		add("fn:struct:get", func() (prog.Term, Ty, bool) {
 			s := r.pickVar("struct", structs)
 			st, _ := component(s.ty, "struct")
@@ -926,6 +1208,9 @@ func (r *ruleGen) step() {
 			v := r.pickVar("list", vs)
 			lt, _ := component(v.ty, "list")
 			e := r.out(lt.Args[0])
+			if v.ty.K != "list" && e.IsVar() {
+				r.lock(e.Var) // typed by the type variable of the polymorphic relation type
+			}
 			r.body = append(r.body, bi(":list:member", e, prog.Var(v.name)))
 		})
 		add(":match_nil", 1, func() {
@@ -943,7 +1228,11 @@ func (r *ruleGen) step() {
 		})
 	}
 	var structVars []tvar
-	for _, v := range r.env {
+	for _, v := range r.live() {
+		if stats.Exclusion(exclFieldOfAny) && unionWithAny(v) {
+			g.label("n7-touched")
+			continue
+		}
 		if st, ok := component(v.ty, "struct"); ok && len(st.Fields) > 0 {
 			structVars = append(structVars, v)
 		}
@@ -1000,7 +1289,11 @@ func (r *ruleGen) step() {
 			r.body = append(r.body, prog.NeqLit(prog.Var(v.name), rhs))
 		})
 		add("=const", 1, func() {
-			v := r.pickVar("eq", r.env)
+			live := r.live()
+			if len(live) == 0 {
+				return
+			}
+			v := r.pickVar("eq", live)
 			var c val.V
 			if v.ty.isLeaf() && v.ty.K != "any" && !chance(t, "foreign-kind", 12) {
 				c = genMember(t, v.ty)
@@ -1021,19 +1314,58 @@ func (r *ruleGen) step() {
 				names = append(names, v)
 			}
 		}
+		var nameUnions []tvar
+		for _, v := range names {
+			if v.ty.K == "union" {
+				nameUnions = append(nameUnions, v)
+			}
+		}
 		if len(names) > 0 {
-			add(":match_prefix", 3, func() {
+			weight := 3
+			if len(nameUnions) > 0 {
+				weight = 8
+			}
+			add(":match_prefix", weight, func() {
 				v := names[g.intn("name", len(names))]
+				if len(nameUnions) > 0 && !chance(t, "other-name", 30) {
+					v = nameUnions[g.intn("name-union", len(nameUnions))]
+				}
 				p := prefixNames[g.intn("prefix", len(prefixNames))]
+				negated := rapid.IntRange(0, 2).Draw(t, "negated") == 0 || g.k51 && v.locked
+				if v.ty.K == "union" && !negated {
+					negated = rapid.Bool().Draw(t, "negated-on-union")
+				}
 				lit := bi(":match_prefix", prog.Var(v.name), constTerm(val.N(p)))
-				if rapid.IntRange(0, 2).Draw(t, "negated") == 0 {
+				if negated {
 					lit.K = prog.LNeg
 					g.label("negated-match_prefix")
-					// what is left of a union of name types after removing the alternatives below p
 					if v.ty.K == "union" {
+						// a prefix strictly below a member of the union is of particular interest: the
+						// member must stay (only members BELOW the prefix may be removed)
+						var belowMember []string
+						for _, a := range v.ty.Args {
+							for _, q := range prefixNames {
+								if a.K == "prefix" && below(q, a.Name) {
+									belowMember = append(belowMember, q)
+								}
+							}
+						}
+						if len(belowMember) > 0 && !chance(t, "any-prefix", 40) {
+							p = belowMember[g.intn("below-member", len(belowMember))]
+							lit = prog.NegLit(prog.Atom{Pred: ":match_prefix", Args: []prog.Term{prog.Var(v.name), constTerm(val.N(p))}})
+							g.label("negated-match_prefix-below-member")
+						}
+						// what is left of the union after removing the alternatives below p; sometimes
+						// (one step too narrow, must be rejected) also the alternatives ABOVE p are removed
+						overNarrow := chance(t, "over-narrow", 40)
 						var rest []Ty
 						for _, a := range v.ty.Args {
-							if !(a.K == "prefix" && (a.Name == p || len(a.Name) > len(p) && a.Name[:len(p)+1] == p+"/")) {
+							gone := a.K == "prefix" && (a.Name == p || below(a.Name, p))
+							if overNarrow && (a.K == "name" || a.K == "prefix" && below(p, a.Name)) {
+								gone = true
+								g.label("negated-match_prefix-over-narrowed")
+							}
+							if !gone {
 								rest = append(rest, a)
 							}
 						}
@@ -1086,7 +1418,7 @@ func (r *ruleGen) gen(name string, arity int) (prog.Rule, []Ty) {
 		if r.self != nil && i == 0 {
 			p = *r.self
 		}
-		r.body = append(r.body, prog.PosLit(prog.Atom{Pred: p.name, Args: r.atomArgs(p.cols)}))
+		r.body = append(r.body, prog.PosLit(prog.Atom{Pred: p.name, Args: r.atomArgs(p)}))
 	}
 	nsteps := []int{0, 1, 1, 2, 2, 3}[g.intn("nsteps", 6)]
 	for i := 0; i < nsteps; i++ {
